@@ -679,6 +679,104 @@ fn amounts(seed: u64, n: u64) {
     }
 }
 
+// ------------------------------------------------------------------ long strings: many 4096-byte read chunks
+const CHUNK: usize = 4096;
+/// A text of `chunks` read chunks in which a code point straddles every boundary selected by `sel`.
+/// The boundaries are those of `decode_text_impl`: after a straddle with `d` bytes before the boundary the
+/// next chunk restarts on those bytes, so the following boundary is at `b + 4096 - d`.
+fn straddle_text(r: &mut Rng, chunks: usize, sel: &dyn Fn(usize) -> bool, cps: &[&str]) -> String {
+    let mut s = String::new();
+    let mut boundary = CHUNK;
+    for j in 1..chunks {
+        if sel(j) {
+            let cp = *r.pick(cps);
+            let d = 1 + r.below(cp.len() as u64 - 1) as usize;     // bytes of the code point before the boundary
+            while s.len() < boundary - d { s.push(if r.chance(1, 64) { 'y' } else { 'x' }) }
+            s.push_str(cp);
+            boundary = boundary + CHUNK - d;
+        } else {
+            while s.len() < boundary { s.push('x') }
+            boundary += CHUNK;
+        }
+    }
+    let tail = 1 + r.below(CHUNK as u64 / 2) as usize;
+    for _ in 0..tail { s.push('z') }
+    s
+}
+fn chunk_texts(r: &mut Rng, max_chunks: usize, per_shape: usize) -> Vec<(String, String)> {
+    let cp2 = ["\u{e9}", "\u{7ff}"]; let cp3 = ["\u{20ac}", "\u{ffff}", "\u{800}"]; let cp4 = ["\u{1f600}", "\u{10ffff}", "\u{10000}"];
+    let all: Vec<&str> = cp2.iter().chain(cp3.iter()).chain(cp4.iter()).copied().collect();
+    let mut out = vec![];
+    let mut sizes = vec![3usize, 4, 5];
+    let mut c = 6; while c <= max_chunks { sizes.push(c); c = c * 2 - 3; }
+    if *sizes.last().unwrap() != max_chunks && max_chunks > 5 { sizes.push(max_chunks) }
+    for &chunks in &sizes {
+        for _ in 0..per_shape {
+            for (name, cps) in [("2", &cp2[..]), ("3", &cp3[..]), ("4", &cp4[..]), ("mix", &all[..])] {
+                out.push((format!("first/{}/{}", name, chunks), straddle_text(r, chunks, &|j| j == 1, cps)));
+                out.push((format!("second/{}/{}", name, chunks), straddle_text(r, chunks, &|j| j == 2, cps)));
+                out.push((format!("all/{}/{}", name, chunks), straddle_text(r, chunks, &|_| true, cps)));
+            }
+            let mask = r.next();
+            out.push((format!("several/mix/{}", chunks), straddle_text(r, chunks, &|j| j == 1 || (mask >> (j % 60)) & 1 == 1, &all)));
+            out.push((format!("lastonly/mix/{}", chunks), straddle_text(r, chunks, &|j| j == chunks - 1, &all)));
+        }
+    }
+    out
+}
+fn chunk_line(kind: &str, shape: &str, v: &Value, raw: Option<Vec<u8>>, big: &[&str]) {
+    // `raw`: bytes written by the harness (segmented forms); otherwise the encoder's bytes
+    let b = match raw { Some(b) => b, None => match enc(v) { Ok(b) => b, Err(e) => { println!("{}", json!({"k":"chunk","kind":kind,"shape":shape,"hex":e})); return } } };
+    println!("{}", json!({"k":"pending","hex":""}));
+    let (d, peak, _) = measured(|| dec_opts::<Value>(&b, true));
+    let (rt, same) = match &d { Ok(d) => ("ok".to_string(), vj(d) == vj(v)), Err(s) => (s.clone(), false) };
+    let reenc = d.as_ref().ok().and_then(|d| enc(d).ok());
+    println!("{}", json!({"k":"chunk","kind":kind,"shape":shape,"hex":hex(&b),"v":vj(v),"rt":rt,"same":same,"peak":peak,"len":b.len(),"big":big.iter().map(|t| hex(t.as_bytes())).collect::<Vec<_>>(),
+        "reenc_same": reenc.as_ref().map(|e| enc(v).ok().as_ref() == Some(e))}));
+}
+fn chunks_mode(seed: u64, max_chunks: u64, per_shape: u64) {
+    let mut r = Rng::new(seed ^ 0xc4a2);
+    let texts = chunk_texts(&mut r, max_chunks as usize, per_shape as usize);
+    for (i, (shape, t)) in texts.iter().enumerate() {
+        // top-level text
+        chunk_line("text", shape, &Value::Text(t.clone()), None, &[t]);
+        // the same bytes as a byte string (no UTF-8 parser on this path)
+        if i % 3 == 0 { chunk_line("bytes", shape, &Value::Bytes(Bytes(t.as_bytes().to_vec())), None, &[t]) }
+        // nested inside containers, as key and as value
+        if i % 4 == 1 { chunk_line("nested", shape, &Value::Map(vec![(Value::Text(t.clone()), Value::Array(vec![Value::Tag(24, Box::new(Value::Text(t.clone())))]))]), None, &[t]) }
+        // indefinite-length text: every segment is chunked on its own
+        if i % 2 == 0 {
+            let (_, t2) = &texts[(i * 7 + 3) % texts.len()];
+            let mut raw = vec![0x7fu8];
+            for seg in [t.as_str(), "", t2.as_str()] {
+                let l = seg.len() as u64;
+                if l < 24 { raw.push(0x60 | l as u8) } else if l < 65536 { raw.push(0x79); raw.extend((l as u16).to_be_bytes()) } else { raw.push(0x7a); raw.extend((l as u32).to_be_bytes()) }
+                raw.extend(seg.as_bytes());
+            }
+            raw.push(0xff);
+            chunk_line("segmented", shape, &Value::Text(format!("{}{}", t, t2)), Some(raw), &[t, t2]);
+        }
+    }
+    // inside token types: metadata URL, names, reasons, catch-all values
+    for (i, (shape, t)) in texts.iter().enumerate() {
+        let (ty, hexs, x, rt): (&str, Result<Vec<u8>, String>, J, String) = match i % 4 {
+            0 => { let mut add = HashMap::new(); add.insert("blob".to_string(), Value::Bytes(Bytes(t.as_bytes().to_vec()))); add.insert("note".to_string(), Value::Text(t.clone()));
+                   let v = MetadataUrl { url: t.clone(), checksum_sha_256: None, additional: add }; (  "MetadataUrl", enc(&v), v.sv(), typed_rt(&v)) }
+            1 => { let v = TokenModuleState { name: Some(t.clone()), metadata: Some(MetadataUrl { url: t.clone(), checksum_sha_256: None, additional: HashMap::new() }), governance_account: None, allow_list: None, deny_list: None, mintable: None, burnable: None, paused: None, additional: HashMap::new() };
+                   ("TokenModuleState", enc(&v), v.sv(), typed_rt(&v)) }
+            2 => { let v = UnsupportedOperationRejectReason { index: i, operation_type: t.clone(), reason: Some(t.clone()) }; ("UnsupportedOperationRejectReason", enc(&v), v.sv(), typed_rt(&v)) }
+            _ => { let v = DeserializationFailureRejectReason { cause: Some(t.clone()) }; ("DeserializationFailureRejectReason", enc(&v), v.sv(), typed_rt(&v)) }
+        };
+        match hexs {
+            Ok(b) => println!("{}", json!({"k":"chunk","kind":"typed","shape":shape,"ty":ty,"hex":hex(&b),"x":x,"rt":rt,"same":rt == "same","len":b.len(),"big":[hex(t.as_bytes())]})),
+            Err(e) => println!("{}", json!({"k":"chunk","kind":"typed","shape":shape,"ty":ty,"hex":e})),
+        }
+    }
+}
+fn typed_rt<T: T17>(x: &T) -> String {
+    match enc(x) { Ok(e) => match dec_opts::<T>(&e, true) { Ok(y) => if y.sv() == x.sv() { "same".into() } else { "DIFFERENT".into() }, Err(s) => s }, Err(s) => s }
+}
+
 // ------------------------------------------------------------------ nesting deeper than 64 (observation O3; separate process)
 fn deep(depth: u64) {
     let mut b = vec![0x81u8; depth as usize];
@@ -705,6 +803,7 @@ fn main() {
         Some("dispatch") => dispatch(num(2), num(3)),
         Some("amounts") => amounts(num(2), num(3)),
         Some("deep") => deep(num(2)),
+        Some("chunks") => chunks_mode(num(2), num(3).max(3), num(4).max(1)),
         Some("replay-bytes") => {
             let b = hlib::unhex(&a[2]);
             let top = dec_opts::<Value>(&b, true);
